@@ -748,6 +748,8 @@ class AsyncServer(base_server.BaseServer):
                     raise ValueError('Binary packet without attachment '
                                      'count.')
                 # a binary packet that announces no attachments is complete
+                # (and a placeholder in it refers to nothing)
+                pkt.reconstruct_binary([])
                 if pkt.packet_type == packet.BINARY_EVENT:
                     pkt.packet_type = packet.EVENT
                 else:
